@@ -885,6 +885,29 @@ func DeleteHistoricVersions(ctx context.Context, s *DB, before time.Time) error 
 	if err != nil {
 		return fmt.Errorf("get historic roots: %w", err)
 	}
+	// A superseded version whose move to merged/ failed half-way is still
+	// listed as current. Everything in it is part of this tree, so finish
+	// retiring it before the nodes only it refers to are deleted.
+	current, err := s.listRoots(ctx)
+	if err != nil {
+		return fmt.Errorf("list roots: %w", err)
+	}
+	historic := make(map[string]bool, len(roots))
+	for _, l := range roots {
+		historic[l] = true
+	}
+	for _, l := range current {
+		if !historic[l] {
+			continue
+		}
+		_, err := s.s3Client.DeleteObjectWithContext(ctx, &s3.DeleteObjectInput{
+			Key:    aws.String(s.root.Prefix + l),
+			Bucket: aws.String(s.root.BucketName),
+		})
+		if err != nil {
+			return fmt.Errorf("delete root: %s: %w", l, err)
+		}
+	}
 	for _, l := range nodes {
 		_, err := s.s3Client.DeleteObjectWithContext(ctx, &s3.DeleteObjectInput{
 			Key:    aws.String(s.persist.(*persistEncryptor).Prefix + l),
